@@ -5,6 +5,7 @@
 (*  CSpec: the enumerated input space, one case per initial state:            *)
 (*         Kind = "stream"  write-size / reader-chunking schedules            *)
 (*         Kind = "combine" (lenA, lenB, content) for the CRC combine         *)
+(*         Kind = "all" additionally: "bigcombine" second operands >= 2^31  *)
 (*         Kind = "tiny"    all pairs of byte strings of length <= 3 over     *)
 (*                          TinyBytes for the CRC combine                     *)
 EXTENDS HashWriter, Json
@@ -30,6 +31,7 @@ EmitSchedule == IF closed THEN PrintT(ToJson([kind |-> "proto", w |-> W, nb |-> 
 SizeSeqs == {s \in UNION {[1..n -> WriteSizes] : n \in 0..MaxLen} : SumSeq(s) <= MaxTotal}
 StreamCases == [kind : {"stream"}, sizes : SizeSeqs, eof : EofStyles, consumer : Consumers, content : Contents]
 CombineCases == [kind : {"combine"}, lena : CombineLens, lenb : CombineLens, content : CombineContents]
+BigCases == [kind : {"bigcombine"}, q : BigQ, d : BigD, lena : BigLenA, content : BigContents]
 TinyStrings == UNION {[1..n -> TinyBytes] : n \in 0..3}
 TinyCases == [kind : {"tiny"}, a : TinyStrings, b : TinyStrings]
 
@@ -37,7 +39,7 @@ Cases == CASE Kind = "stream" -> StreamCases [] Kind = "combine" -> CombineCases
 
 \* Kind = "all": the three case spaces as three groups of initial states (one TLC run)
 CInit == /\ InitWith(0, FALSE) /\ hist = <<>>
-         /\ IF Kind = "all" THEN (case \in StreamCases \/ case \in CombineCases \/ case \in TinyCases)
+         /\ IF Kind = "all" THEN (case \in StreamCases \/ case \in CombineCases \/ case \in TinyCases \/ case \in BigCases)
             ELSE case \in Cases
 CNext == UNCHANGED gvars
 CSpec == CInit /\ [][CNext]_gvars
